@@ -24,9 +24,16 @@ def generate(rng, idx, tier, variant):
         'leads': leads,
         'span': sp,
         'init': scripts.gen_data(rng, prog, n),
+        'init_via': rng.choice(['dict', 'dict', 'kwargs', 'kwargs-shared']),
     }
     ops = []
     for _ in range(rng.randint(2, 5)):
+        if ops and rng.random() < 0.2:
+            # history: the model is replaced by a reindexed version of itself (shifted, shrunk or grown)
+            dn = rng.choice([0, 0, -1, -2, 1, 2])
+            n2 = max(lags + leads + 1, n + dn)
+            ops.append({'op': 'reindex', 'shift': rng.choice([0, 1, 2, -1]), 'n': n2})
+            n = n2
         opts = S.gen_opts(rng, True)
         if opts['errors'] == 'bogus':
             opts['errors'] = 'ignore'
@@ -113,8 +120,23 @@ def execute(schedule, ctx):
     chk = lambda sig, ok, detail=None: ctx.check('C04', sig, ok, detail)  # noqa: E731
     ctl = probes.get_ctl(m)
 
+    callers = list(ctl.caller_arrays)
+    if callers:
+        ctx.probe('constructed-through-keywords:' + spec.get('init_via', 'dict'))
+    sp_now = dict(spec['span'])
     for step, op in enumerate(schedule['ops']):
         ctx.step = step
+        if op['op'] == 'reindex':
+            sp_now = dict(sp_now, origin=sp_now.get('origin', 0) + op['shift'], n=op['n'])
+            new_span = spans.make_span(sp_now)
+            m = m.reindex(new_span, fill_value=1.5)
+            span = m.__dict__['span']
+            n = len(span)
+            ctl = probes.get_ctl(m)
+            ctx.probe('history:reindex')
+            ctx.log(step, 'reindex', n)
+            ctx.outcome('reindex', 'ok')
+            continue
         if op['op'] == 'poke':
             if op['name'] in names and 0 <= op['pos'] < n:
                 m.__dict__['_' + op['name']][op['pos']] = probes.fval(op['v'])
@@ -123,6 +145,10 @@ def execute(schedule, ctx):
             ctx.outcome('poke', 'ok')
             continue
         opts = op['opts']
+        if op['op'] in ('solve_t', 'solve_period'):
+            op = dict(op, t=max(-n, min(n - 1, op['t'])))
+        else:
+            op = dict(op, start=None if op['start'] is None else min(op['start'], n - 1), end=None if op['end'] is None else min(op['end'], n - 1))
         snap = ref_solver.snapshot(m)
         ctl.arm({})
         sink = []
@@ -133,7 +159,7 @@ def execute(schedule, ctx):
                 if op['op'] == 'solve_t':
                     v = m.solve_t(op['t'], **opts)
                 elif op['op'] == 'solve_period':
-                    v = m.solve_period(spans.label_forms(spec['span'], span, _norm(op['t'], n), op.get('form', 0)), **opts)
+                    v = m.solve_period(spans.label_forms(sp_now, span, _norm(op['t'], n), op.get('form', 0)), **opts)
                 else:
                     a = None if op['start'] is None else span[op['start']]
                     b = None if op['end'] is None else span[op['end']]
@@ -208,6 +234,11 @@ def execute(schedule, ctx):
                 ctx.probe('first-period-of-default-range')
             if positions[-1] == n - 1 - leads:
                 ctx.probe('last-period-of-default-range')
+        # ---- arrays the caller passed to the constructor are the caller's: a solve must not write through to them
+        for nm_, arr_, pristine_ in callers:
+            if not bool(np.array_equal(arr_, pristine_, equal_nan=True)):
+                chk('frame/callers-array-changed', False, {'passed-for': nm_})
+                arr_[:] = pristine_
         # ---- reads and writes observed through the recording arrays
         _judge_reads(sink, spec, n, lags, leads, endo, chk, ctx.probe)
 
